@@ -105,6 +105,10 @@ class Pool:
         # a later version of A whose named types were renamed and carry dotted aliases of the old names
         self.reader_aliased = copy.deepcopy(A_V2)
         self.reader_aliased_parsed = fa.parse_schema(copy.deepcopy(A_V2))
+        # a mapping that fabricates values for missing keys, lacking defaulted fields of A
+        import collections
+
+        self.dd = collections.defaultdict(int, {"id": 1, "name": "n"})
         self.block = next(iter(fa.block_reader(io.BytesIO(_container_const(fa)))))  # a Block handed to write_block
         self.named = {}  # caller-supplied named-schema dictionary (may be filled)
         self.tmpdir = tmpdir
@@ -247,6 +251,30 @@ def _writers(fa, overlap):
 EQUIV = {"readers_overlap": "readers_sequential", "block_readers_overlap": "block_readers_sequential", "writers_overlap": "writers_sequential"}
 
 
+def _custom_logical(fa, register):
+    """Write and read a value under a logical type of the caller's own ("string" + "rot13"); with register=True the
+    caller's conversions are put into the public registries for the duration of the call (and taken out again)."""
+    import codecs
+
+    import fastavro.read
+    import fastavro.write
+
+    sch = {"type": "record", "name": "Note", "namespace": "cl", "fields": [{"name": "t", "type": {"type": "string", "logicalType": "rot13"}}]}
+    W, R = fastavro.write.LOGICAL_WRITERS, fastavro.read.LOGICAL_READERS
+    if register:
+        W["string-rot13"] = lambda data, schema: codecs.encode(data, "rot13")
+        R["string-rot13"] = lambda data, writer_schema, reader_schema: codecs.decode(data, "rot13")
+    try:
+        fo = io.BytesIO()
+        fa.schemaless_writer(fo, sch, {"t": "hello"})
+        raw = fo.getvalue()
+        return (raw, fa.schemaless_reader(io.BytesIO(raw), sch))
+    finally:
+        if register:
+            W.pop("string-rot13", None)
+            R.pop("string-rot13", None)
+
+
 def _json_write(fa, s, recs):
     fo = io.StringIO()
     fa.json_writer(fo, s, recs)
@@ -306,6 +334,11 @@ CALLS = {
     "legacy_read_with_reader_schema": lambda fa, p: list(fa.reader(io.BytesIO(_legacy_file()), copy.deepcopy(LEGACY_READER))),
     "legacy_read_plain": lambda fa, p: list(fa.reader(io.BytesIO(_legacy_file()))),
     "legacy_block_read_plain": lambda fa, p: [list(b) for b in fa.block_reader(io.BytesIO(_legacy_file()))],
+    "validate_dd": lambda fa, p: fa.validate(p.dd, p.parsed_a, raise_errors=False),
+    "write_dd": lambda fa, p: _sl_write(fa, p.parsed_a, p.dd),
+    "container_dd_validated": lambda fa, p: _container(fa, p.raw_a, [p.dd], validator=True),
+    "custom_logical_unregistered": lambda fa, p: _custom_logical(fa, False),
+    "custom_logical_registered": lambda fa, p: _custom_logical(fa, True),
     "load_schema": _load,
     "load_child": lambda fa, p: _load_named(fa, p, "acme.Child"),
     "load_order_diamond": lambda fa, p: _load_named(fa, p, "acme.Order"),
@@ -538,7 +571,7 @@ COLLIDERS = ["parse_a_into_named", "parse_b_into_named", "expand_a", "expand_nod
              "read_a_as_b", "read_b_as_a", "json_read_a_absent", "json_read_a_raw_absent", "json_read_b_absent", "generate_a", "generate_b_raw",
              "dec3_read", "dec12_read", "write_a_bad_last", "container_a", "container_read_a_as_b", "validate_a_raises", "load_schema",
              "parse_node_parsed_into_named", "write_node", "read_a", "read_b", "read_dangling_sub", "canon_piecewise", "container_piecewise",
-             "container_union_piecewise", "container_read_a", "generate_dangling", "load_child", "load_order_diamond", "readers_overlap", "writers_overlap", "read_a_as_aliased", "legacy_read_with_reader_schema", "legacy_read_plain", "json_read_nested_defaults", "block_copy_twice", "block_copy_pool", "write_hinted_strict", "write_hinted", "dec_p6_read", "dec_p20_read"]
+             "container_union_piecewise", "container_read_a", "generate_dangling", "load_child", "load_order_diamond", "readers_overlap", "writers_overlap", "read_a_as_aliased", "legacy_read_with_reader_schema", "legacy_read_plain", "validate_dd", "write_dd", "custom_logical_unregistered", "custom_logical_registered", "json_read_nested_defaults", "block_copy_twice", "block_copy_pool", "write_hinted_strict", "write_hinted", "dec_p6_read", "dec_p20_read"]
 
 
 def step_check(res, fa, pool, hist, call):
